@@ -46,7 +46,9 @@ EXHAUSTIVE = {"quick": False, "thorough": False}
 ALGS = ["MD5", "MD5-sess", "SHA-256", "SHA-256-sess"]
 USERS = [("user", "pw"), ("émile x", "hés lo"), ("bob", "pw"), ("a", "p:w"), ("Ünï", "пароль"),
          # names that contain one another, differ in letter case only, or hold the separator of A1
-         ("ops:admin", "pw1"), ("admin", "pw2"), ("ops", "pw3"), ("Bob", "pw4"), ("bobby", "pw5")]
+         ("ops:admin", "pw1"), ("admin", "pw2"), ("ops", "pw3"), ("Bob", "pw4"), ("bobby", "pw5"),
+         # names that begin with the characters of the `UTF-8''` prefix of the extended notation
+         ("Tom", "pw6"), ("8ball", "pw7"), ("Ulrike F", "pw8"), ("-dash", "pw9")]
 REALMS = ["Zone", "Admin Zone", "Zóna"]
 FIELDS = ["username", "realm", "nonce", "uri", "algorithm", "response", "opaque", "qop", "nc", "cnonce"]
 UNQUOTED = ("algorithm", "qop", "nc")
@@ -566,6 +568,15 @@ def oracle(case):
     elif scenario == "wrong-password":
         f = client_fields(hfun, alg, qop, user, realm, password + "x", nonce, method, uri, opaque_of())
         expect_run = False
+    if hdr is None and "username" in f and ":" not in f["username"] and rng2.random() < 0.3 \
+            and scenario in ("correct", "wrong-password", "not-the-required-user", "other-user", "unknown-user"):
+        # RFC 7616 3.4.4: the user name in the extended notation `username*=UTF-8''<percent-encoded>` (not quoted)
+        import urllib.parse
+        f = dict(f)
+        name_ = f.pop("username")
+        f = dict([("username*", "UTF-8''" + urllib.parse.quote(name_, safe=""))] + list(f.items()))
+        requote = tuple(requote) + ("username*",)
+        note += " username* notation"
     if hdr is None:
         hdr = render(f, requote, rng.choice(["Digest", "Digest", "digest"]), rng.choice([", ", ","]))
     if scenario == "absent":
